@@ -478,8 +478,8 @@ MUTANTS = [
          old="            if clock_task.clock is clock:\n                self.add(clock.beats2secs(clock_task.beats), clock_task)",
          new="            self.add(clock.beats2secs(clock_task.beats), clock_task)"),
     dict(rule='C10.mode', name='re-queued task keeps stale beat', file='sc3/base/clock.py',
-         old="                self.beats = beats + delta\n                self.scheduler.add(self.clock.beats2secs(self.beats), self)",
-         new="                self.scheduler.add(self.clock.beats2secs(beats + delta), self)"),
+         old="                self.beats = self.beats + delta\n                self.scheduler.add(self.clock.beats2secs(self.beats), self)",
+         new="                self.scheduler.add(self.clock.beats2secs(self.beats + delta), self)"),
     dict(rule='C10.mode', name='tempo setter re-bases at elapsed time (seed C10-b)', file='sc3/base/clock.py',
          old="        beats = self.beats\n        self._base_seconds = self.beats2secs(beats)\n        self._base_beats = beats\n        self._tempo = value\n        self._beat_dur = 1.0 / self._tempo\n        # en tempo_\n        mdl.NotificationCenter.notify(self, 'tempo')\n        if self.mode == _libsc3.main.NRT_MODE:\n            _libsc3.main._clock_scheduler.rekey(self)\n        else:\n            with self._sched_cond:\n                self._sched_cond.notify()  # NOTE: is notify_one in C++.\n",
          new="        self.etempo(value)\n"),
